@@ -52,7 +52,7 @@ def E_ROUNDTRIP(**kw):
 def E_CODECS(**kw):
     d = dict(mode="E", schemas=[dict(name="codecs", run="go,go-http")], load_pkgs=["./gen/codecs"], pkgpath="verifmod/gen/codecs",
              test_pkg="./gen/codecs", test_pkgname="codecs", init=[MOD + "/http", "verifmod/gen/codecs"],
-             overlay={"gen/codecs/zz_verif_c04.go": "harness/c04/c04_codecs.go", "gen/codecs/zz_verif_c04t.go": "harness/c04/c04_time.go", "gen/codecs/zz_verif_c05.go": "harness/c05/c05_nested.go",
+             overlay={"gen/codecs/zz_verif_c04.go": "harness/c04/c04_codecs.go", "gen/codecs/zz_verif_c04t.go": "harness/c04/c04_time.go", "gen/codecs/zz_verif_c05.go": "harness/c05/c05_nested.go", "gen/codecs/zz_verif_c05u.go": "harness/c05/c05_unwrap.go",
                       "gen/codecs/zz_verif_c11.go": "harness/c11/c11_decoders.go"})
     d.update(kw)
     return d
@@ -251,14 +251,14 @@ PROPERTIES = {
         harnesses=[dict(func=f, reach=[r], quick=dict(budget=200), thorough=dict(budget=600)) for f, r in [
                      ("VerifC04Int64", "C04/int64/decided"), ("VerifC04Nullable", "C04/nullable/decided"), ("VerifC04EmptyBehavior", "C04/empty_behavior/decided"),
                      ("VerifC04Flatten", "C04/flatten/decided"), ("VerifC04FlattenChild", "C04/flatten-child/decided"), ("VerifC04Oneof", "C04/oneof/decided"),
-                     ("VerifC04OneofFlat", "C04/oneof-flat/decided"), ("VerifC04Bytes", "C04/bytes/decided"), ("VerifC04Time", "C04/time/decided")]],
+                     ("VerifC04OneofFlat", "C04/oneof-flat/decided"), ("VerifC04Bytes", "C04/bytes/decided"), ("VerifC04Time", "C04/time/decided"), ("VerifC05UnwrapMap", "C04/unwrap-map/decided"), ("VerifC05UnwrapRoot", "C04/unwrap-root/decided")]],
         bounds_text={"quick": "one message type per annotation (int64 NUMBER singular/unsigned/repeated 0..2, nullable optional string+int32, empty_behavior PRESERVE/NULL/OMIT, flatten with prefix, flatten of a child with multi-word/64-bit fields, discriminated oneof nested and flattened with a custom oneof_value, bytes HEX/BASE64URL); all field values symbolic (integers full range, strings <= 2, presence bits, oneof case); obligations: MarshalJSON succeeds, UnmarshalJSON(MarshalJSON(m)) = m up to the documented losses, the canonical form M(m) is accepted"},
         assumptions=E_ASSUMPTIONS + CODEC_ASSUMPTIONS + ["go-client emits the same codec text as go-http for these features (decided by C14), so the client side is not re-run here"]),
     "C05": E_CODECS(
         harnesses=[dict(func=f, reach=[r], quick=dict(budget=200), thorough=dict(budget=600)) for f, r in [
                      ("VerifC04Int64", "C04/int64/decided"), ("VerifC04Nullable", "C04/nullable/decided"), ("VerifC04EmptyBehavior", "C04/empty_behavior/decided"),
                      ("VerifC04Flatten", "C04/flatten/decided"), ("VerifC04FlattenChild", "C04/flatten-child/decided"), ("VerifC04Oneof", "C04/oneof/decided"),
-                     ("VerifC04OneofFlat", "C04/oneof-flat/decided"), ("VerifC04Bytes", "C04/bytes/decided"), ("VerifC04Time", "C04/time/decided"), ("VerifC05FlattenAnnotatedChild", "C05/flatten-annotated/decided")]] + [dict(func="VerifC05Nested", reach=["C05/nested/decided", "C05/nested/kf"], quick=dict(budget=200), thorough=dict(budget=600))],
+                     ("VerifC04OneofFlat", "C04/oneof-flat/decided"), ("VerifC04Bytes", "C04/bytes/decided"), ("VerifC04Time", "C04/time/decided"), ("VerifC05UnwrapMap", "C04/unwrap-map/decided"), ("VerifC05UnwrapRoot", "C04/unwrap-root/decided"), ("VerifC05FlattenAnnotatedChild", "C05/flatten-annotated/decided")]] + [dict(func="VerifC05Nested", reach=["C05/nested/decided", "C05/nested/kf"], quick=dict(budget=200), thorough=dict(budget=600))],
         bounds_text={"quick": "as C04, with the obligation 'emitted JSON = reference mapping M(m)' (M transcribed from annotations.proto and the proto3 JSON mapping, DESIGN.md Appendix A) per message type; plus the nested contexts 'singular child' and 'list element' of an unannotated parent encoded through the emitted server response path (marshalResponse)"},
         assumptions=E_ASSUMPTIONS + CODEC_ASSUMPTIONS + ["contexts map value / plain oneof variant / sibling of an unwrap map are not covered yet"]),
     "C11": E_CODECS(
